@@ -566,6 +566,9 @@ func (c *flowCtx) alias(e ast.Expr) bool {
 				return c.alias(x.Args[0])
 			}
 		}
+		if se, ok := x.Fun.(*ast.SelectorExpr); ok && strings.HasPrefix(se.Sel.Name, "Append") && len(x.Args) > 0 && c.alias(x.Args[0]) {
+			return true // binary.BigEndian.AppendUint64(b, v), strconv.AppendInt(b, ...), ...: extends b in place when it has room
+		}
 		var fo types.Object
 		switch f := x.Fun.(type) {
 		case *ast.Ident:
@@ -744,6 +747,9 @@ func analyseFlows(pi *pkgInfo, fd *ast.FuncDecl, fn string) (summaryChanged bool
 			}
 			if k, ok := paramWriters[cn]; ok && k < len(x.Args) && c.alias(x.Args[k]) {
 				emit(exprText(x.Args[k]), "param-write")
+			}
+			if se, ok := x.Fun.(*ast.SelectorExpr); ok && strings.HasPrefix(se.Sel.Name, "Append") && len(x.Args) > 0 && c.alias(x.Args[0]) {
+				emit(exprText(x.Args[0]), "param-write") // may write into the parameter's spare capacity
 			}
 		}
 		return true
